@@ -171,7 +171,7 @@ def check_iter(ctx, P):
         if o["kind"] == "unwrap":
             continue
         ctx.ob("a.totality", "%s#%d" % (k, n), o["ok"] is True, "%s in ExtDiagBlockIter::next not discharged for every buffer: %s" % (o["kind"], o["detail"]), f.loc(o["b"]))
-    ctx.anchor("bounds/slice/overflow obligations in ExtDiagBlockIter::next", nob, 12)
+    ctx.anchor("bounds/slice/overflow obligations in ExtDiagBlockIter::next", nob, 3)  # (slice patterns and get()/first() leave fewer panicking operations than indexing)
     ctx.ob("a.totality", "no-loops", not f.back_edges(), "ExtDiagBlockIter::next contains a loop", f.loc(0))
     # the unwrap of raw_diag_buffer(): must not be a panic for buffer-less diagnostics
     tb = TermBuilder(f, P)
@@ -233,6 +233,8 @@ def check_iter(ctx, P):
 def block_byte(t):
     """'remainder[k]' when t reads byte k of the block that starts at the cursor (raw[cursor..][k])"""
     t = strip_casts(strip_refs(t))
+    if t[0] == "cidx" and not t[3]:
+        t = ("index", t[1], ("const", t[2]))  # an element bound by a slice pattern `&[b0, b1, b2, ..]`
     if t[0] == "index" and t[2][0] == "const":
         base = strip_refs(t[1])
         # `&raw[cursor..]` or the payload of `raw.get(cursor..)`
@@ -387,6 +389,11 @@ def header_signature(ctx, P, f):
     idn = strip_refs(vals["ident_number"])
     sig["ident_ctor"] = idn[1].split("::")[-1] if idn[0] == "call" else show(idn)
     sig["ident_src"] = norm(idn[2][0]) if idn[0] == "call" and idn[2] else "?"
+    for key_, (a_, b_) in (("flags_src", (0, 1)), ("ident_src", (4, 5))):
+        # one spelling for "octets a and b of the PDU" (sub-slice converted to an array, or an array of two elements)
+        if ("Range(%d, %d)" % (a_, b_ + 1)) in sig[key_] or re.search(r"array\(pdu\[%d\], pdu\[%d\]\)" % (a_, b_), sig[key_]):
+            sig[key_] = re.sub(r"unwrap\(try_into\(index\(pdu, Range::Range\(%d, %d\)\)\)\)|array\(pdu\[%d\], pdu\[%d\]\)" % (a_, b_ + 1, a_, b_),
+                               "array(pdu[%d], pdu[%d])" % (a_, b_), sig[key_])
     # master address: multi-def local assigned None / Some(pdu[3]) under pdu[3] == 255
     S = (g_h if guard_site is not None else g).at(c["b"], c["i"])
     ma = set()
@@ -423,11 +430,25 @@ def header_signature(ctx, P, f):
     if guard_site is not None:
         S = g.at(guard_site[0])
     # guards on every path to the construction
+    gtb = (g_h if guard_site is None else g).tb if False else g.tb
+
+    def is_pdu(t):
+        """the reply's PDU: the field itself, or a local that is only ever a copy of it (the scrutinee of a slice pattern)"""
+        t = strip_refs(t)
+        while t[0] == "deref":
+            t = strip_refs(t[1])
+        if (path_str(t) or "").endswith(".pdu"):
+            return True
+        if t[0] == "local":
+            ds = gtb.defs.get(t[1], ())
+            fn_ = gtb.fn
+            return bool(ds) and all(d[0] == "stmt" and (path_str(strip_refs(gtb.rvalue(fn_.blocks[d[1]].stmts[d[2]]["rv"]))) or "").endswith(".pdu") for d in ds)
+        return False
     gs = []
     for what, kp, allowed in (
         ("dsap==Some(62)", M.key_cmp("eq", lambda t: t[0] == "agg" and t[2] == "Some" and t[3] == (("const", SPEC["sap"]["master_ms0"]),), lambda t: (path_str(t) or "").endswith(".h.dsap")), {True}),
         ("ssap==Some(60)", M.key_cmp("eq", lambda t: t[0] == "agg" and t[2] == "Some" and t[3] == (("const", SPEC["sap"]["slave_diag"]),), lambda t: (path_str(t) or "").endswith(".h.ssap")), {True}),
-        ("len(pdu)>=6", M.key_cmp("lt", lambda t: t[0] == "len" and (path_str(t[1]) or "").endswith(".pdu"), M.t_const(6)), {False}),
+        ("len(pdu)>=6", M.key_cmp("lt", lambda t: t[0] == "len" and is_pdu(t[1]), M.t_const(6)), {False}),
         ("kind==Data", M.key_discr_where(lambda t: path_str(t) == "telegram"), {"Data"}),
     ):
         ok, w = M.all_disj(S, kp, allowed)
@@ -498,9 +519,12 @@ def check_siblings(ctx, P):
             continue
         sigs.append((f, sig))
         want = {"flags_ctor": "from_bits_retain", "ident_ctor": "from_be_bytes"}
-        ctx.ob("d.header", "flags|%s" % f.name, sig["flags_ctor"] == "from_bits_retain" and "from_le_bytes" in sig["flags_src"] and "Range(0, 2)" in sig["flags_src"],
+        def bytes_of(src, a, b):
+            """the two source octets: `pdu[a..b+1]` converted to an array, or the array `[pdu[a], pdu[b]]` (slice pattern / indexing)"""
+            return ("Range(%d, %d)" % (a, b + 1)) in src or re.search(r"array\(pdu\[%d\], pdu\[%d\]\)" % (a, b), src) is not None
+        ctx.ob("d.header", "flags|%s" % f.name, sig["flags_ctor"] == "from_bits_retain" and "from_le_bytes" in sig["flags_src"] and bytes_of(sig["flags_src"], 0, 1),
                "diagnostic flags must be every bit of the first two octets (from_bits_retain(u16::from_le_bytes(pdu[0..2]))), found %s(%s)" % (sig["flags_ctor"], sig["flags_src"]), f.loc(0))
-        ctx.ob("d.header", "ident|%s" % f.name, sig["ident_ctor"] == "from_be_bytes" and "Range(4, 6)" in sig["ident_src"],
+        ctx.ob("d.header", "ident|%s" % f.name, sig["ident_ctor"] == "from_be_bytes" and bytes_of(sig["ident_src"], 4, 5),
                "ident number must be u16::from_be_bytes(pdu[4..6]), found %s(%s)" % (sig["ident_ctor"], sig["ident_src"]), f.loc(0))
         want_master = sorted(map(str, {(("None",), ("pdu[3]", (True,))), (("Some",), ("pdu[3]", (False,)))}))
         ctx.ob("d.header", "master|%s" % f.name, sig["master"] == want_master,
